@@ -22,6 +22,8 @@ impl<T> LSPLang for T where T: Language + Eq + Send + Sync + 'static {}
 struct VersionedAst<D: Doc> {
   version: i32,
   root: AstGrep<D>,
+  /// the document is opened but not yet known to be inside the workspace
+  pending: bool,
 }
 
 pub struct Backend<L: LSPLang> {
@@ -135,11 +137,11 @@ impl<L: LSPLang> LanguageServer for Backend<L> {
       .await;
   }
   async fn did_open(&self, params: DidOpenTextDocumentParams) {
+    self.on_open(params).await;
     self
       .client
       .log_message(MessageType::INFO, "file opened!")
       .await;
-    self.on_open(params).await;
   }
 
   async fn did_change(&self, params: DidChangeTextDocumentParams) {
@@ -217,15 +219,6 @@ impl<L: LSPLang> Backend<L> {
     Some(diagnostics)
   }
 
-  async fn publish_diagnostics(&self, uri: Url, versioned: &VersionedAst<StrDoc<L>>) -> Option<()> {
-    let diagnostics = self.get_diagnostics(&uri, versioned).unwrap_or_default();
-    self
-      .client
-      .publish_diagnostics(uri, diagnostics, Some(versioned.version))
-      .await;
-    Some(())
-  }
-
   async fn get_path_of_first_workspace(&self) -> Option<std::path::PathBuf> {
     let folders = self.client.workspace_folders().await.ok()??;
     let folder = folders.first()?;
@@ -243,61 +236,74 @@ impl<L: LSPLang> Backend<L> {
     }
   }
 
+  // Notifications are handled concurrently, but their handlers are started in arrival order.
+  // So every handler must update `self.map` before its first `.await`: otherwise a change that
+  // arrives right after an open is processed first and lost. Diagnostics are always computed
+  // from what the map holds at publishing time, and no map guard is held across an `.await`.
+  async fn publish_diagnostics(&self, uri: Url) -> Option<()> {
+    let (diagnostics, version) = {
+      let versioned = self.map.get(uri.as_str())?;
+      if versioned.pending {
+        return None;
+      }
+      let diagnostics = self.get_diagnostics(&uri, &versioned).unwrap_or_default();
+      (diagnostics, versioned.version)
+    };
+    self
+      .client
+      .publish_diagnostics(uri, diagnostics, Some(version))
+      .await;
+    Some(())
+  }
+
   async fn on_open(&self, params: DidOpenTextDocumentParams) -> Option<()> {
     let text_doc = params.text_document;
+    let uri = text_doc.uri.as_str().to_owned();
+    let lang = Self::infer_lang_from_uri(&text_doc.uri)?;
+    let root = AstGrep::new(&text_doc.text, lang);
+    let versioned = VersionedAst {
+      version: text_doc.version,
+      root,
+      pending: true,
+    };
+    self.map.insert(uri.to_owned(), versioned); // don't lock dashmap
     if self
       .should_skip_file_outside_workspace(&text_doc)
       .await
       .is_some()
     {
+      self.map.remove(&uri);
       return None;
     }
-    let uri = text_doc.uri.as_str().to_owned();
-    let text = text_doc.text;
-    self
-      .client
-      .log_message(MessageType::LOG, "Parsing doc.")
-      .await;
-    let lang = Self::infer_lang_from_uri(&text_doc.uri)?;
-    let root = AstGrep::new(text, lang);
-    let versioned = VersionedAst {
-      version: text_doc.version,
-      root,
-    };
+    // the document may have been changed or closed in the meantime
+    self.map.get_mut(&uri)?.pending = false;
     self
       .client
       .log_message(MessageType::LOG, "Publishing init diagnostics.")
       .await;
-    self.publish_diagnostics(text_doc.uri, &versioned).await;
-    self.map.insert(uri.to_owned(), versioned); // don't lock dashmap
-    Some(())
+    self.publish_diagnostics(text_doc.uri).await
   }
 
   async fn on_change(&self, params: DidChangeTextDocumentParams) -> Option<()> {
     let text_doc = params.text_document;
     let uri = text_doc.uri.as_str();
     let text = &params.content_changes[0].text;
-    self
-      .client
-      .log_message(MessageType::LOG, "Parsing changed doc.")
-      .await;
     let lang = Self::infer_lang_from_uri(&text_doc.uri)?;
     let root = AstGrep::new(text, lang);
-    let mut versioned = self.map.get_mut(uri)?;
-    // skip old version update
-    if versioned.version > text_doc.version {
-      return None;
+    {
+      let mut versioned = self.map.get_mut(uri)?;
+      // skip old version update
+      if versioned.version > text_doc.version {
+        return None;
+      }
+      versioned.version = text_doc.version;
+      versioned.root = root;
     }
-    *versioned = VersionedAst {
-      version: text_doc.version,
-      root,
-    };
     self
       .client
       .log_message(MessageType::LOG, "Publishing diagnostics.")
       .await;
-    self.publish_diagnostics(text_doc.uri, &versioned).await;
-    Some(())
+    self.publish_diagnostics(text_doc.uri).await
   }
   async fn on_close(&self, params: DidCloseTextDocumentParams) {
     self.map.remove(params.text_document.uri.as_str());
